@@ -102,7 +102,7 @@ func c18TriggerBody(roles []string) func(x *sched.X) {
 		}
 		for _, v := range snap.Vertices {
 			if len(snap.Leaves) > 0 && v.Hash == snap.Leaves[0] {
-				c08Tip[w] = c08TipT{v.Hash, v.Weight}
+				c08Tip[w] = c08TipT{hash: v.Hash, weight: v.Weight}
 			}
 		}
 		vsched.Quiet(false)
